@@ -299,8 +299,10 @@ DV(t, b, i, prior) ==
             ELSE LET r == DPairs(t.kt, t.vt, b, i + 6, n, <<>>, 6, FALSE, 0, FALSE) IN
                  IF r.st # "ok" THEN r
                  ELSE [r EXCEPT !.v = [nil |-> FALSE, ents |-> Dedup(t.kt, r.v)], !.d = r.d + 1]
-  ELSE \* nested struct: declared defaults first, then the fields of the message
-       DFields(t.s, b, i, IF HasInit(t.s) THEN DefaultStruct(t.s) ELSE prior, {}, <<>>, 0, FALSE, 0, FALSE)
+  ELSE \* nested struct: declared defaults first, then the fields of the message.  A struct the decoder
+       \* creates (pointer, element, map value) starts from zero, so it starts from DefaultStruct; a by-value
+       \* struct field of an existing destination keeps the fields its initialiser does not assign.
+       DFields(t.s, b, i, InitOn(t.s, prior), {}, <<>>, 0, FALSE, 0, FALSE)
 
 DT(t, b, i, prior) ==
   IF t.ptr THEN
